@@ -96,7 +96,8 @@ fn main() {
     #[cfg(rcgen_verif)]
     rcgen::verif_hooks::set_hash_seed(r.next_u64());
     let crypto = cfg!(feature = "fakering");
-    let sw = Swarm { sans: true, wide_dn: true, exts: true, constraints: true, big: false, hashed_kid: crypto, auto_serial: crypto };
+    // the crypto configuration keeps recipes small: interpreted hashing is what costs time there
+    let sw = Swarm { sans: !crypto, wide_dn: true, exts: !crypto, constraints: !crypto, big: false, hashed_kid: crypto, auto_serial: crypto };
     // with the ring stub the shared keys are *local* keys (rcgen's own signing plumbing and
     // digest-based key identifiers run); without it they sit behind the pure-Rust remote signer
     #[cfg(feature = "fakering")]
@@ -163,8 +164,10 @@ fn main() {
             #[cfg(rcgen_verif)]
             rcgen::verif_hooks::set_hash_seed(hs);
             let _ = hs;
+            // every thread starts with the same operation (so that the same derivations meet),
+            // then walks the list from a thread-specific position
             for k in 0..3 {
-                let i = (t + k * 3) % ops.len();
+                let i = if k == 0 { 0 } else { (t + k * 3) % ops.len() };
                 let got = run_op(&ops[i], &key, &subject, &issuer);
                 let want = &reference[i];
                 if got.0 != want.0 {
